@@ -1639,7 +1639,14 @@ impl Archive {
             self.reader.read_exact(&mut data)?;
 
             // Decrypt if needed
-            if file_info.is_encrypted() {
+            if file_info.is_encrypted() && !file_info.is_single_unit() {
+                // Uncompressed multi-sector file: every sector is encrypted on its own
+                // with key + sector index
+                let sector_size = self.header.sector_size();
+                for (i, sector) in data.chunks_mut(sector_size).enumerate() {
+                    decrypt_file_data(sector, key.wrapping_add(i as u32));
+                }
+            } else if file_info.is_encrypted() {
                 log::debug!(
                     "Decrypting file data: key=0x{:08X}, size={}",
                     key,
@@ -2113,7 +2120,14 @@ impl Archive {
             self.reader.read_exact(&mut data)?;
 
             // Decrypt if needed
-            if file_info.is_encrypted() {
+            if file_info.is_encrypted() && !file_info.is_single_unit() {
+                // Uncompressed multi-sector file: every sector is encrypted on its own
+                // with key + sector index
+                let sector_size = self.header.sector_size();
+                for (i, sector) in data.chunks_mut(sector_size).enumerate() {
+                    decrypt_file_data(sector, key.wrapping_add(i as u32));
+                }
+            } else if file_info.is_encrypted() {
                 log::debug!(
                     "Decrypting file data: key=0x{:08X}, size={}",
                     key,
